@@ -285,8 +285,23 @@ def _ident(x): return x
 def _true(x): return True
 
 
+_SHARE = [None]      # when a dict: structurally identical mutable containers inside ONE value are one shared object (aliasing)
+
+
 def build_val(t):
     k = t[0]
+    if _SHARE[0] is not None and k in ('coll', 'mapping') and CLASSES[t[1]] in (list, dict, set, collections.deque, collections.OrderedDict):
+        key = json.dumps(t)
+        if key in _SHARE[0]:
+            return _SHARE[0][key]
+        share, _SHARE[0] = _SHARE[0], None
+        try:
+            o = build_val(t)
+        finally:
+            _SHARE[0] = share
+        # the children were built without sharing by the inner call; rebuild them with sharing so that nested aliases are shared too
+        _SHARE[0][key] = o
+        return o
     if k == 'lit': return lit_obj(t[1])
     if k == 'inst':
         c = CLASSES[t[1]]
@@ -626,7 +641,11 @@ def run_impl_checker(cases):
     for c in cases:
         try:
             ao = build_ann(c['c']['ann'])
-            vo = build_val(c['c']['val'])
+            _SHARE[0] = {} if c['x'].get('alias') else None
+            try:
+                vo = build_val(c['c']['val'])
+            finally:
+                _SHARE[0] = None
         except Exception as e:      # a corpus case that cannot be concretised any more
             out.append({'out': 'unbuildable:' + type(e).__name__})
             continue
@@ -680,6 +699,35 @@ def big_cases(rng, n):
         at, _ = canon_ann(at)
         vt, _ = canon_val(vt)
         cases.append(mk_case(at, vt, kind='big-corrupted' if corrupted else 'big-conforming'))
+    return cases
+
+
+def alias_cases(rng, n):
+    """values in which ONE mutable container object is reachable several times (`[[0] * 3] * 3`, `{'a': xs, 'b': xs}`, `(xs, xs)`):
+    conformance is about structure, not identity - a cycle guard or an id()-keyed memo must not mistake aliasing for anything"""
+    cases = []
+    inner = [(["seq", "typing", "list", cls_term(int)], ["coll", IDX[list], [lit(0), lit(1)]], ["coll", IDX[list], [lit('x')]]),
+             (["map", "typing", "dict", cls_term(str), cls_term(int)], ["mapping", IDX[dict], [[lit('a'), lit(1)]]], ["mapping", IDX[dict], [[lit('a'), lit('b')]]]),
+             (["seq", "pep585", "set", cls_term(int)], ["coll", IDX[set], [lit(1), lit(2)]], ["coll", IDX[set], [lit('s')]])]
+    for _ in range(n):
+        it, good, bad = rng.choice(inner)
+        v = good if rng.random() < 0.7 else bad
+        k = rng.randint(2, 4)
+        shape = rng.choice(['list', 'dict', 'tuple', 'optlist', 'tuplevar'])
+        sp = rng.choice(['typing', 'pep585'])
+        if shape == 'list':
+            at, vt = ["seq", sp, "list", it], ["coll", IDX[list], [v] * k]
+        elif shape == 'dict':
+            at, vt = ["map", sp, "dict", cls_term(str), it], ["mapping", IDX[dict], [[lit('k%d' % i), v] for i in range(k)]]
+        elif shape == 'tuple':
+            at, vt = ["tuple", sp, [it] * k], ["tup", IDX[tuple], [v] * k]
+        elif shape == 'tuplevar':
+            at, vt = ["tuplevar", sp, it], ["tup", IDX[tuple], [v] * k]
+        else:
+            at = ["seq", sp, "list", ["union", "optional", [it, ["cls", IDX[NoneType]]]]]
+            vt = ["coll", IDX[list], [v, lit(None), v]]
+        at, _ = canon_ann(at)
+        cases.append(mk_case(at, canon_term(vt), kind='aliased', alias=True))
     return cases
 
 
